@@ -397,7 +397,7 @@ func (r *Runner) finalChecks() {
 		if op.Kind != "apply" || !op.Done || !errors.Is(op.err, raft.ErrAbortedByRestore) {
 			continue
 		}
-		r.Feat["aborted-by-restore"]++
+		r.feat("aborted-by-restore")
 		for _, id := range r.ids {
 			in := w.Servers[id].Inst
 			if in == nil || in.DeadLocked() {
